@@ -26,6 +26,9 @@ def subjects():
     out = []
     for I in m.IFACES + (Interface,):
         out.append((('iface', I.__name__), I))
+    for T in m.BUILTINS:
+        out.append((('implements', 'builtin:' + T.__name__), implementedBy(T)))
+        out.append((('object', 'builtin:' + T.__name__, 'plain'), T()))
     for K in m.CLASSES:
         out.append((('implements', K.__name__), implementedBy(K)))
         out.append((('classprovides', K.__name__), getattr(K, '__provides__', None)))
@@ -43,6 +46,11 @@ def by_reference_only(data):
     return None
 
 
+def _cls(name):
+    import builtins
+    return getattr(builtins, name[8:]) if name.startswith('builtin:') else getattr(m, name)
+
+
 def describe(sid, x):
     """What a process can say about the value, comparable across processes."""
     kind = sid[0]
@@ -51,14 +59,14 @@ def describe(sid, x):
     if kind == 'iface':
         return ('iface', x is (Interface if sid[1] == 'Interface' else getattr(m, sid[1])), hash(x) == hash((x.__name__, x.__module__)))
     if kind == 'implements':
-        return ('implements', x is implementedBy(getattr(m, sid[1])), names(x))
+        return ('implements', x is implementedBy(_cls(sid[1])), names(x))
     if kind == 'classprovides':
         cls = getattr(m, sid[1])
         return ('classprovides', names(x), names(providedBy(cls)))
     if kind == 'provides':
         return ('provides', names(x), type(x).__name__)
     if kind == 'object':
-        return ('object', type(x) is getattr(m, sid[1]), names(providedBy(x)))
+        return ('object', type(x) is _cls(sid[1]), names(providedBy(x)))
 
 
 def check_local(sid, x):
@@ -112,6 +120,11 @@ def dump_all(_):
     """Phase 1 (process A): local round trips; returns blobs + descriptions."""
     viol = []
     out = []
+    # pickles taken by a dependent *while* declarations were being applied
+    if len(m.OBSERVER.results) < 3 or any(r is not True for r in m.OBSERVER.results):
+        viol.append(dict(sig='C13:implements:not-identical-while-a-declaration-is-applied',
+                         case=dict(sid=('observer',)),
+                         detail=dict(round_trips_inside_change_notifications=m.OBSERVER.results)))
     for sid, x in subjects():
         v, blobs = check_local(sid, x)
         if v:
@@ -150,6 +163,9 @@ def load_all(items):
 
 def replay(case):
     sid = tuple(case['sid'])
+    if sid == ('observer',):
+        r = m.OBSERVER.results
+        return dict(results=r) if (len(r) < 3 or any(x is not True for x in r)) else None
     for s, x in subjects():
         if s == sid:
             v, blobs = check_local(s, x)
